@@ -567,6 +567,43 @@ def _leaf(leaf):
     raise ValueError(leaf)
 
 
+# leaves with TWO signature checks whose script codes differ: a signature pushed inside the script itself (FindAndDelete
+# removes it for the check of THAT signature only; in witness scripts nothing is removed, so the embedded signature can
+# never be valid) and an OP_CODESEPARATOR between the checks.  The output script then depends on a signature, so the
+# spent outpoint is a fixed one (not the hash of a crediting transaction, which would make the digest circular).
+TWO_CHECK_LEAVES = ("fad2", "fad2r", "codesep2")
+_FIXED_PREV = b"\x37" * 32
+
+
+def _tx_fixed(script_sig, spk, witness):
+    from pycoin.symbols.btc import network
+    Tx = network.tx
+    spend = Tx(2, [Tx.TxIn(_FIXED_PREV, 0, script_sig, sequence=10)], [Tx.TxOut(AMOUNT, b"")], lock_time=100)
+    spend.set_unspents([Tx.Spendable(AMOUNT, spk, _FIXED_PREV, 0)])
+    spend.txs_in[0].witness = list(witness)
+    return spend
+
+
+def _two_check_leaf(leaf, wit_inner, bad):
+    """-> (script, solution items bottom first)"""
+    from pycoin.symbols.btc import network
+    K1 = _sec(_D1)
+    sc = network.tx.SolutionChecker(_tx_fixed(b"", b"\x51", []))
+
+    def z_of(code):
+        return sc._signature_for_hash_type_segwit(code, 0, 1) if wit_inner else sc._signature_hash(code, 0, 1)
+    if leaf == "codesep2":
+        inner = push_enc(K1) + b"\xad\xab" + push_enc(K1) + b"\xac"     # K1 CHECKSIGVERIFY CODESEPARATOR K1 CHECKSIG
+        sig_a = _sign(_D1, z_of(inner), 1, bad)                           # first check: from the start of the script
+        sig_b = _sign(_D1, z_of(push_enc(K1) + b"\xac"), 1, False)        # second: what follows the separator
+        return inner, [sig_b, sig_a]
+    tail = push_enc(K1) + b"\xad" + push_enc(K1) + b"\xac"              # K1 CHECKSIGVERIFY K1 CHECKSIG
+    sig_a = _sign(_D1, z_of(b"\x75" + tail), 1, False)                    # its own push is deleted from the script code
+    inner = push_enc(sig_a) + b"\x75" + tail                             # <sigA> DROP K1 CHECKSIGVERIFY K1 CHECKSIG
+    sig_b = _sign(_D1, z_of(inner), 1, bad)                               # not in the script: nothing is deleted
+    return inner, ([sig_b, sig_a] if leaf == "fad2" else [sig_a, sig_b])
+
+
 def concretize(shape):
     """shape record of MC_SpendShapes -> case for MC_ScriptRun / run_spend (real keys and signatures)"""
     from pycoin.symbols.btc import network
@@ -574,8 +611,12 @@ def concretize(shape):
     K1 = _sec(_D1)
     bad = sigk == "badsig"
     wit_inner = pk in ("p2wsh", "p2sh-p2wsh", "p2wpkh", "p2sh-p2wpkh")
+    fixed = leaf in TWO_CHECK_LEAVES
     # the script whose execution consumes the signatures, and its kind of digest
-    if pk in ("bare", "p2sh", "p2wsh", "p2sh-p2wsh"):
+    if fixed:
+        inner, fixed_items = _two_check_leaf(leaf, wit_inner, bad)
+        solver = (lambda sg: fixed_items)
+    elif pk in ("bare", "p2sh", "p2wsh", "p2sh-p2wsh"):
         inner, solver = _leaf(leaf)
     elif pk in ("p2wpkh", "p2sh-p2wpkh"):
         inner, solver = b"\x76\xa9" + push_enc(_h160(K1)) + b"\x88\xac", (lambda sg: [sg(_D1), K1])
@@ -676,6 +717,10 @@ def concretize(shape):
         witness = witness[:-1] + [witness[-1] + b"\x61"]
     elif witk == "unexpected":
         witness = [b"\x01"]
+    if fixed:
+        tx = _tx_fixed(ss, spk, witness)
+        return mk_case("spend", ss, spk, witness, flags=flags, version=2, locktime=100, sequence=10, amount=AMOUNT,
+                       shape=[pk, leaf, sigk, witk], tx={"hex": tx.as_hex(), "idx": 0, "prevouts": [[spk.hex(), AMOUNT]]})
     return mk_case("spend", ss, spk, witness, flags=flags, version=2, locktime=100, sequence=10, amount=AMOUNT,
                    shape=[pk, leaf, sigk, witk])
 
